@@ -6,6 +6,12 @@ set -eu
 id="$1"; shift
 B="$VERIF_DIR/.build/$id"
 mkdir -p "$B/bin"
+# builds of one harness are serialised, and wait for a running check of that harness (see ./check)
+if [ "${VERIF_LOCK_HELD:-}" != "$id" ]; then
+  exec 9>"$VERIF_DIR/.build/$id.lock"
+  flock 9
+  export VERIF_LOCK_HELD="$id"
+fi
 cp "$VERIF_REPO/go.mod" "$B/go.mod"
 cp "$VERIF_REPO/go.sum" "$B/go.sum"
 ov_args=()
